@@ -29,6 +29,22 @@ HARNESSES = [Harness('s_c17', ['harness/s_c17.cc'], sdk_srcs=_SRCS, includes=SDK
              Harness('s_c17v2', ['harness/s_c17.cc'], sdk_srcs=_SRCS, includes=SDK_INCLUDES,
                      flags=['-UOPENTELEMETRY_ABI_VERSION_NO', '-DOPENTELEMETRY_ABI_VERSION_NO=2'])]
 H1, H2 = 's_c17', 's_c17v2'
+import importlib, os
+SUBS = [importlib.import_module('props.' + n) for n in ('c17_race',) if os.path.exists(os.path.join(os.path.dirname(__file__), n + '.py'))]
+for _m in SUBS:
+    LEAN_TARGETS = LEAN_TARGETS + list(_m.LEAN_TARGETS)
+    THEOREMS = THEOREMS + list(_m.THEOREMS)
+    HARNESSES = HARNESSES + [h for h in _m.HARNESSES if h.name not in {x.name for x in HARNESSES}]
+    GEN = GEN + [g for g in (_m.GEN or []) if g not in GEN]
+
+
+def _sub(case):
+    w = case.line.split()[0] if case.line.split() else ''
+    for m in SUBS:
+        if w in m.WORDS:
+            return m
+    return None
+
 RULE = ('histories of 10-80 operations on a real MeterProvider with 1-3 explicit readers of mixed temporality: create '
         'observable counter / up-down counter / gauge (and, in the ABI v2 build, synchronous gauge), AddCallback / '
         'RemoveCallback / instrument destruction, gauge Record, Collect with a script saying what each callback observes in '
@@ -57,7 +73,7 @@ def corpus():
     c(line(['C', 'D'], ['create sg', 'create og', 'addcb 1 0', 'grec 0 2 5', 'grec 0 2 7', 'collect 0 0=1:4', 'grec 0 3 1', 'collect 1 0=1:3', 'collect 0', 'grec 0 2 -1', 'collect 1', 'collect 0']), 'sync-gauge', H2)
     c('obs cfg D ; addcb 0 0', 'malformed')
     c('obs cfg D ; create oc ; collect 0 9=1:1', 'malformed')
-    return out
+    return out + [c for m in SUBS for c in m.corpus()]
 
 
 def gen_history(rng, nops, allow_sg):
@@ -139,7 +155,7 @@ def generate(rng, tier):
         j = rng.randrange(1, len(toks))
         toks[j] = rng.choice(['x', '-1', '99', 'collect', '', '1=1', '0=1:x'])
         out.append(Case(' '.join(t for t in toks if t != ''), H1, ('malformed-mutation',)))
-    return out
+    return out + [c for m in SUBS for c in m.generate(rng, tier)]
 
 
 # ------------------------------------------------------------------------------------------------
@@ -163,6 +179,23 @@ def parse_script(toks):
 
 
 def oracle(case, out):
+    m = _sub(case)
+    if m:
+        return m.oracle(case, out)                     # the sub-check has its own malformed stream
+    return _oracle(case, out)
+
+
+def model_line(case, out):
+    m = _sub(case)
+    return m.model_line(case, out) if m and hasattr(m, 'model_line') else case.line
+
+
+def agree(case, out, mout):
+    m = _sub(case)
+    return m.agree(case, out, mout) if m and hasattr(m, 'agree') else out == mout
+
+
+def _oracle(case, out):
     if out.startswith('CRASH'):
         return ('never-crashes', out)
     toks = case.line.split(' ')
@@ -335,10 +368,16 @@ def bad_case(ops, harness):
 
 
 def signature(case, out, clause):
+    m = _sub(case)
+    if m and hasattr(m, 'signature'):
+        return m.signature(case, out, clause)
     return clause
 
 
 def nontrivial(case, out):
+    m = _sub(case)
+    if m and hasattr(m, 'nontrivial'):
+        return m.nontrivial(case, out)
     return ' addcb ' in case.line and case.line.count('; collect ') >= 2 and not out.startswith('bad-op')
 
 
@@ -364,3 +403,7 @@ LEVEL_NOTE = ('Trusted: Lean kernel (axioms propext/Quot.sound/Classical.choice 
               '"total" on a monotonic observable counter is recorded as 0 (modelled, excluded from the value clauses). View '
               'attribute filters are ignored on the observable path (D22, belongs to C08/C19). FP rounding and int64 overflow are not generated.')
 DESIGN_REF = 'DESIGN.md section 4, C17; Appendix D'
+for _m in SUBS:
+    RULE = RULE + ' | ' + getattr(_m, 'RULE', '')
+    LEVEL_TEXT = LEVEL_TEXT + getattr(_m, 'LEVEL_TEXT_ADD', '')
+    LEVEL_NOTE = LEVEL_NOTE + getattr(_m, 'LEVEL_NOTE_ADD', '')
